@@ -70,12 +70,35 @@ class Eval:
         self.evals = evals      # number of executions against the code under test
 
 
+CASE_CPU_LIMIT_S = float(os.environ.get("VERIF_CASE_CPU_S", "120"))
+
+
+class CaseStuck(BaseException):
+    pass
+
+
+def _case_stuck(signum, frame):
+    raise CaseStuck()
+
+
 def evaluate(arm, case):
     """arm.evaluate(case); an exception that escapes the check's own handling and was raised INSIDE the library under test
     (innermost frame in <repo>/lib) is what the library did to this case: it is reported as a violation with a replay file.
     Any other escaping exception is a defect of the harness and propagates (exit 2)."""
+    import signal
+    armed = False
+    try:
+        old_handler = signal.signal(signal.SIGVTALRM, _case_stuck)
+        signal.setitimer(signal.ITIMER_VIRTUAL, CASE_CPU_LIMIT_S)
+        armed = True
+    except (ValueError, AttributeError, OSError):
+        pass            # not the main thread / no such timer: no per-case limit
     try:
         return arm.evaluate(case)
+    except CaseStuck:
+        # CPU time of this process, not wall time: machine load does not count.  Typical cases take milliseconds to seconds.
+        return Eval([Failure("no-result:cpu-time-limit:%s" % arm.name, "evaluating this case used more than %.0f s of CPU time (typical: well under a second): "
+                             "a library call does not terminate" % CASE_CPU_LIMIT_S)], ["evaluation-stuck"], nontrivial=True, ident=safe_repr(case, 2000))
     except (KeyboardInterrupt, SystemExit, MemoryError):
         raise
     except BaseException as e:
@@ -90,6 +113,10 @@ def evaluate(arm, case):
         key = "library-raised-unexpectedly:%s@%s:%s" % (type(e).__name__, os.path.basename(inner.co_filename), inner.co_name)
         return Eval([Failure(key, "%s: %s" % (type(e).__name__, safe_repr(str(e), 300)))], ["evaluation-raised-in-library"],
                     nontrivial=True, ident=safe_repr(case, 2000))
+    finally:
+        if armed:
+            signal.setitimer(signal.ITIMER_VIRTUAL, 0)
+            signal.signal(signal.SIGVTALRM, old_handler)
 
 
 class Arm:
@@ -150,6 +177,7 @@ class Collector:
         self.samples = {}
         self.failures = {}      # key -> dict(case, msg, count, size, index)
         self.max_samples = max_samples
+        self.stuck = False
 
     def add(self, arm, case, ev):
         self.cases += 1
@@ -194,9 +222,16 @@ def run_shard(prop, arm_name, tier, k, nshards, n, seed):
     arm = {a.name: a for a in mod.arms(tier)}[arm_name]
     col = Collector()
     t0 = time.time()
+    def one(case):
+        if col.stuck:
+            return          # a case of this shard did not terminate: the remaining ones are not evaluated (each could take as long)
+        ev = evaluate(arm, case)
+        col.add(arm, case, ev)
+        if any(f.key.startswith("no-result:cpu-time-limit") for f in ev.failures):
+            col.stuck = True
     if arm.enum is not None:
         for case in arm.enum(k, nshards, tier):
-            col.add(arm, case, evaluate(arm, case))
+            one(case)
     else:
         from hypothesis import given, seed as hseed
         strat = arm.strategy()
@@ -205,7 +240,7 @@ def run_shard(prop, arm_name, tier, k, nshards, n, seed):
         @_hyp_settings(n)
         @given(strat)
         def body(case):
-            col.add(arm, case, evaluate(arm, case))
+            one(case)
         body()
     res = col.result()
     res["wall"] = time.time() - t0
